@@ -43,6 +43,14 @@ def stages(tier, seed, bins):
         if m == "npe":
             c["kshift"] = rnd.choice([1e-3, 1e-2])
         cases.append(c)
+    # sizes beyond any "small problem" switch an implementation may have (size-gated code paths, e.g. `if (N > 1000)`)
+    for N in ([1100] if tier != "thorough" else [1001, 1100, 2000]):
+        for m in ["npe", "lltsa", "lpp"]:
+            c = base(rnd, mode="lin", method=m, N=N, D=5, td=2, k=10, data="mix", offset=1, nm="covertree", em="dense", width=2.0, rotate=1, timeout=1800,
+                     ticks=0)
+            if m == "npe":
+                c["kshift"] = 1e-3
+            cases.append(c)
     return [dict(name="lin", exe=bins["spectral"], cases=finish(cases, "x"), timeout=300)]
 
 
